@@ -217,17 +217,37 @@ def gen_case(rnd):
 
 # ------------------------------------------------------------------ reconfiguration at run time (XL cases)
 
-RANK = {"a": 0, "f": 1, "m": 2, "s": 3}
+RANK = {"a": 0, "f": 1, "m": 2, "s": 3, "p": 4}
 TYPED = ["tA", "tF", "tM", "tS"]
-CLEARS = ["cA", "cF", "cM", "cS", "cc"]
+CLEARS = ["cA", "cF", "cM", "cS", "cc", "cP"]
+NESTED = ["tP", "uA", "uF", "uM", "uS", "uF", "uS"]
 
 
 def gen_typed_ops(rnd, n):
-    return [(rnd.choice(TYPED), rnd.randint(0, 59)) if rnd.random() < 0.85 else (rnd.choice(CLEARS), 0) for _ in range(n)]
+    out = []
+    for _ in range(n):
+        r = rnd.random()
+        if r < 0.6:
+            out.append((rnd.choice(TYPED), rnd.randint(0, 59)))
+        elif r < 0.85:
+            out.append((rnd.choice(NESTED), rnd.randint(0, 59)))      # an unscoped plain pipeline nested in Z, filled by plain append
+        else:
+            out.append((rnd.choice(CLEARS), 0))
+    return out
 
 
 def apply_typed(kids, op, k):
-    """rank-ordered list model of SortedPipeline (as in C17): attribute handlers, filters, at most one formatter, sinks"""
+    """rank-ordered list model of SortedPipeline (as in C17): attribute handlers, filters, at most one formatter, sinks, nested
+    pipelines; the one nested pipeline is a plain unscoped Pipeline whose own handlers are appended in call order"""
+    nested = next((h for h in kids if h.kind == "p"), None)
+    if op == "tP":
+        if nested is None:
+            kids.append(Node("p", scoped=False))
+        return
+    if op[0] == "u":
+        if nested is not None:
+            nested.kids.append(Node(op[1].lower(), k))
+        return
     if op[0] == "t":
         cls = op[1].lower()
         if cls == "m":
